@@ -685,6 +685,19 @@ def doCall (d : DS) (t : Toks) : DS × String :=
     let L := Spec.angularMomentum M st
     also o d "COM.spec" (" ".intercalate [showRat (Spec.totalMass M), showV3 (Spec.com M st),
       showV3 (Spec.comVelocity M st), showV3 (Spec.comAcceleration M st), showV3 L.1, showV3 L.2])
+  | "COMm" =>
+    -- a subset of the optional outputs: each requested output has the value of the full call
+    let (mask, t) := t.nat; let (u, _) := t.nat
+    let bit := fun (k : Nat) => (mask / 2 ^ k) % 2 = 1
+    let (w, c) := calcCenterOfMass m d.w d.st d.qd (some d.qdd) true (u ≠ 0)
+    let sel := fun (xs : List (Bool × String)) => " ".intercalate (xs.filterMap (fun p => if p.1 then some p.2 else none))
+    let o := out { d with w := w } name (sel [(true, showRat c.mass), (true, showV3 c.com), (bit 0, showV3 c.comVel),
+      (bit 1, showV3 c.comAcc), (bit 2, showV3 c.angMom), (bit 3, showV3 c.angMomDot)])
+    if u = 0 then o else
+    let M := d.specModel; let st := d.specState
+    let L := Spec.angularMomentum M st
+    also o d "COMm.spec" (sel [(true, showRat (Spec.totalMass M)), (true, showV3 (Spec.com M st)),
+      (bit 0, showV3 (Spec.comVelocity M st)), (bit 1, showV3 (Spec.comAcceleration M st)), (bit 2, showV3 L.1), (bit 3, showV3 L.2)])
   | "COM0" =>
     let (u, _) := t.nat
     let (w, c) := calcCenterOfMass m d.w d.st d.qd none false (u ≠ 0)
